@@ -26,8 +26,8 @@ pub static PROP: Prop = Prop {
 #[derive(Debug, Clone)]
 pub struct StrCase {
     pub s: String,
-    /// None: `DataMatrix::encode_str(s, SymbolList::default())`; Some((list, modes, macros)): the builder's `encode_str`
-    pub cfg: Option<(u64, u8, bool)>,
+    /// None: `DataMatrix::encode_str(s, SymbolList::default())`; Some((list, modes, macros, fnc1 start)): the builder's `encode_str`
+    pub cfg: Option<(u64, u8, bool, bool)>,
     pub stratum: &'static str,
 }
 
@@ -35,11 +35,11 @@ impl Case for StrCase {
     fn to_json(&self) -> Value {
         match self.cfg {
             None => json!({"utf8": hex(self.s.as_bytes()), "text": self.s.chars().take(60).collect::<String>()}),
-            Some((list, modes, macros)) => json!({"utf8": hex(self.s.as_bytes()), "text": self.s.chars().take(60).collect::<String>(), "symbols": mask_names(list), "modes": mode_names(modes), "macros": macros}),
+            Some((list, modes, macros, fnc1)) => json!({"utf8": hex(self.s.as_bytes()), "text": self.s.chars().take(60).collect::<String>(), "symbols": mask_names(list), "modes": mode_names(modes), "macros": macros, "fnc1": fnc1}),
         }
     }
     fn fingerprint(&self) -> u64 {
-        fnv64(self.s.as_bytes()) ^ self.cfg.map_or(0, |(l, m, x)| splitmix(l ^ (m as u64) << 50 ^ (x as u64) << 60))
+        fnv64(self.s.as_bytes()) ^ self.cfg.map_or(0, |(l, m, x, f)| splitmix(l ^ (m as u64) << 50 ^ (x as u64) << 60 ^ (f as u64) << 61))
     }
 }
 
@@ -47,7 +47,7 @@ impl StrCase {
     pub fn from_json(case: &Value) -> Option<Self> {
         let s = String::from_utf8(unhex(case["utf8"].as_str()?)?).ok()?;
         let cfg = match case.get("symbols") {
-            Some(l) if !l.is_null() => Some((names_to_mask(l)?, names_to_modes(&case["modes"])?, case["macros"].as_bool()?)),
+            Some(l) if !l.is_null() => Some((names_to_mask(l)?, names_to_modes(&case["modes"])?, case["macros"].as_bool()?, case["fnc1"].as_bool().unwrap_or(false))),
             _ => None,
         };
         Some(StrCase { s, cfg, stratum: "replay" })
@@ -61,7 +61,10 @@ fn printable_latin1(s: &str) -> bool {
 pub fn check(c: &StrCase) -> Verdict {
     let enc = || match c.cfg {
         None => DataMatrix::encode_str(&c.s, SymbolList::default()),
-        Some((list, modes, macros)) => datamatrix::DataMatrixBuilder::new().with_symbol_list(mask_to_list(list)).with_encodation_types(modes_to_flags(modes)).with_macros(macros).encode_str(&c.s),
+        Some((list, modes, macros, fnc1)) => {
+            // the shared builder construction (entry point and setter order vary with the case)
+            EncCase { data: c.s.as_bytes().to_vec(), list, modes, macros, fnc1, eci: None, stratum: "str" }.builder().encode_str(&c.s)
+        }
     };
     let dm = match guard(enc) {
         Ok(Ok(dm)) => dm,
@@ -99,7 +102,7 @@ pub fn check(c: &StrCase) -> Verdict {
             return fail(format!("stream carries {:?}, expected the UTF-8 bytes {:?}", show(&d.message()), show(c.s.as_bytes())));
         }
         // designator position: first codeword, or second after a macro codeword
-        let pos = if d.macro_cw.is_some() { 1 } else { 0 };
+        let pos = if d.macro_cw.is_some() || d.fnc1_first { 1 } else { 0 };
         if cw.get(pos) != Some(&241) || cw.get(pos + 1) != Some(&27) {
             return fail(format!("UTF-8 ECI designator expected at codeword {} (stream starts {:?})", pos, &cw[..cw.len().min(6)]));
         }
@@ -184,8 +187,8 @@ fn g_body(max: usize) -> BoxedStrategy<(String, &'static str)> {
 
 fn g_str() -> BoxedStrategy<StrCase> {
     // a third of the strings go through the builder with a generated symbol list / mode set / macro flag
-    (g_str_plain(), any::<u8>(), g_list(), g_modes(), any::<bool>())
-        .prop_map(|(mut c, k, list, modes, macros)| {
+    (g_str_plain(), any::<u8>(), g_list(), g_modes(), any::<bool>(), any::<u8>())
+        .prop_map(|(mut c, k, list, modes, macros, f)| {
             if k % 3 == 0 {
                 let mask = match list {
                     ListSpec::Default => default_mask(),
@@ -197,7 +200,7 @@ fn g_str() -> BoxedStrategy<StrCase> {
                         resolve_fit(&bytes, modes, macros, false, j)
                     }
                 };
-                c.cfg = Some((mask, modes, macros));
+                c.cfg = Some((mask, modes, macros, f % 4 == 0));
             }
             c
         })
